@@ -19,4 +19,4 @@ For each change X in (a, b) write into /tmp/seed/{pid}-out/X/:
   * demo.py     — a small self-contained program (run as `cd <repo-root> && PYTHONPATH=<repo-root> /venv/bin/python demo.py`, repo root passed implicitly by cwd) that exercises the REAL library code, exits 0 / prints PASS on the unmodified code and exits 1 / prints FAIL with the change applied, and whose failure is a concrete violation of the property above (say which clause);
   * README.md   — what the change is, which clause of the property it breaks, what it needs in order to manifest, which existing tests you ran and their result.
 Verify yourself: (1) unmodified: demo passes; (2) modified: demo fails; (3) modified: the relevant existing tests pass — run at least the test files touching the changed module(s), e.g. `cd {wt} && PYTHONPATH={wt} /venv/bin/python -m pytest -q -p no:cacheprovider --timeout=900 test/<…>` (the algorithm tests are slow, several minutes each; the full suite takes ~10 min — run the full suite if you can afford it, otherwise say exactly what you ran). Use `/venv/bin/python` (it has numpy, torch, gpytorch, cvxpy, etc.). Constructors of GP-based algorithms are slow (hyper-parameter training); keep demos fast where possible (small synthetic inputs, direct calls to the functions involved).
-Leave the worktree clean (`git -C {wt} checkout -- .`) when done. Final message: a short summary of both changes (site, effect, what is needed to manifest, tests run).""")
+Never use `git stash`, `git commit`, `git branch` or `git worktree` (the repository's git metadata is shared with other people's checkouts): save a change with `git -C {wt} diff > file` and drop it with `git -C {wt} checkout -- .`; if you need a second copy of the code use `cp -r`. Set OMP_NUM_THREADS=2 for every python/pytest run (the machine is shared). Leave the worktree clean (`git -C {wt} checkout -- .`) when done. Final message: a short summary of both changes (site, effect, what is needed to manifest, tests run).""")
